@@ -372,3 +372,8 @@ def check(P: Project, R: Report) -> None:
     lift(P, R, "C06", {"R2"}, "R6",
          "every encoded message is exactly one NDJSON frame: the text the stdio writer frames is the output of a compact serialiser, or a caller's string on a path that excluded raw CR and LF or re-encoded it (the line-safety obligations of C06-R2, read here for 'compact encodings never contain a raw line break')",
          "stdio writer: ", min_n=2, suffix=" — a raw CR or LF inside the frame is a line break to the reader on the other side: one message arrives as several fragments, none of which is JSON")
+
+    # ------------------------------------------------------------------ R7: what was encoded is what the reader decodes
+    lift(P, R, "C05", {"R1"}, "R7",
+         "decoding what either backend encoded gives back the value: the reader turns the child's bytes into text with one incremental UTF-8 decoder that lives as long as the stream — never reset or replaced between reads (the decoder obligations of C05-R1; the fast backend and Pydantic put raw UTF-8 on the wire, the stdlib arm ASCII escapes, so only one backend's frames are damaged by a decoder that forgets the first bytes of a character)",
+         "stdio reader: ", min_n=1, suffix=" — a frame cut inside a multi-byte character comes back with U+FFFD for frames of the raw-UTF-8 encoders and intact for the escaping one")
